@@ -398,6 +398,50 @@ def run(ctx):
                        "insert precedes interpret() in the session thread")
     ctx.guard("R14.6", r6)
 
+    # ---------------------------------------------------------------- R14.7
+    ctx.rule("R14.7", "the child is still registered when <finalize> is looked up: in mainEventLoop the removal of child_sessions[event.invoke_id] "
+                      "for a done.invoke.* event does not precede the lookup that selects the finalize block (W3C: finalize applies to every event "
+                      "whose invokeid matches, the child's done.invoke included)")
+
+    def r7():
+        mel = F.fn(ALG + "mainEventLoop")
+        idx = hirq.order_index(mel)
+        removes = [c for c in mel.calls("HashMap::remove") if global_field_expr(c["r"], "child_sessions")]
+        lookups = [c for c in mel.calls("HashMap::get") if global_field_expr(c["r"], "child_sessions")]
+        # the lookup that feeds toFinalize: the one whose Some-arm pushes inv.finalize
+        fin = []
+        for c in lookups:
+            m = next((a for a in mel.ancestors(c) if a.get("k") == "match" and any(x is c for x in hirq.walk(a["e"]))), None)
+            if m is not None and any(x.get("k") == "field" and x["n"] == "finalize" for x in hirq.walk(m)):
+                fin.append(c)
+        ctx.exact("R14.7", "finalize lookups in mainEventLoop", len(fin), 1)
+        ctx.floor("R14.7", "child_sessions removals in mainEventLoop", len(removes), 1)
+        for i, r in enumerate(removes):
+            for f in fin:
+                ok = idx[id(r)] > idx[id(f)]
+                ctx.ob("R14.7", site_key(mel, "done.invoke removal after the finalize lookup", i), ok, line_of(r),
+                       "child_sessions.remove at %s %s the finalize lookup at %s" % (line_of(r), "follows" if ok else "PRECEDES", line_of(f)))
+    ctx.guard("R14.7", r7)
+
+    # ---------------------------------------------------------------- R14.8
+    ctx.rule("R14.8", "exitStates runs a state's <onexit> content before it cancels the state's invocations (W3C order: onexit handlers, then "
+                      "cancelInvoke, then removal from the configuration), so that onexit content can still address the child")
+
+    def r8():
+        ex = F.fn(ALG + "exitStates")
+        idx = hirq.order_index(ex)
+        cancels = ex.calls(ALG + "cancelInvoke")
+        contents = ex.calls(ALG + "executeContent")
+        ctx.exact("R14.8", "cancelInvoke sites in exitStates", len(cancels), 1)
+        ctx.floor("R14.8", "executeContent sites in exitStates", len(contents), 1)
+        for c in cancels:
+            loops_c = [id(l) for l in hirq.enclosing_loops(ex, c)]
+            for e in contents:
+                shared = [l for l in hirq.enclosing_loops(ex, e) if id(l) in loops_c]
+                ctx.ob("R14.8", site_key(ex, "onexit content precedes cancelInvoke"), bool(shared) and idx[id(e)] < idx[id(c)], line_of(c),
+                       "in the exit loop, executeContent (%s) %s cancelInvoke (%s)" % (line_of(e), "precedes" if idx[id(e)] < idx[id(c)] else "FOLLOWS", line_of(c)))
+    ctx.guard("R14.8", r8)
+
 
 # ------------------------------------------------------------------------------------------ helpers
 _SOME = "std::prelude::v1::Some"
